@@ -475,6 +475,459 @@ class Prog:
         return "trace " + "|".join(th_txt)
 
 
+# ----------------------------------------------------------------- c32.prog third generation: thrown value kind x
+# boundary kind x earlier (swallowed / caught) errors
+
+# (name, literal or None for an error created by native code, class of the value)
+VKINDS = [
+    ("string", '"boom"', "reference"), ("error", 'E1("x")', "reference"),
+    ("bigint", "100000000000000000000000000", "reference"), ("bigfloat", "1.5bf", "reference"),
+    ("list", "[1]", "reference"),
+    ("symbol", ":boom", "inline"), ("stop_sym", ":stop_iteration", "inline"), ("smallint", "7", "inline"),
+    ("float", "2.5", "inline"), ("true", "true", "inline"), ("false", "false", "inline"), ("nil", "nil", "inline"),
+    ("char", "`c`", "inline"), ("i8", "3i8", "inline"), ("u8", "3u8", "inline"), ("i16", "3i16", "inline"),
+    ("u16", "3u16", "inline"), ("i32", "3i32", "inline"), ("u32", "3u32", "inline"), ("i64", "3i64", "inline"),
+    ("u64", "3u64", "inline"), ("uint", "3u", "inline"), ("f32", "2.5f32", "inline"), ("f64", "2.5f64", "inline"),
+    ("native_stop", None, "inline"), ("native_zerodiv", None, "reference"),
+]
+VK = {k[0]: k for k in VKINDS}
+CALLBACKS = ["cb:map", "cb:filter", "cb:fold", "cb:tmap", "cb:smap", "cb:mapvalues", "cb:times"]
+TRAMPS = ["tr:interp", "tr:eq", "tr:contains", "tr:splat", "tr:add"]
+# links at which the error leaves a nested run of the VM and is handed back by native code
+NESTED = set(CALLBACKS) | {"tr:eq", "tr:contains", "tr:splat", "tr:for", "gnext", "gsplat", "for"}
+PHASE1 = ["for_gen", "for_iter", "splat_gen", "splat_iter", "next_catch", "catch_cb", "catch_await", "catch_gen_for"]
+BOUNDARIES = CALLBACKS + TRAMPS + ["tr:for", "closure", "direct", "tail", "await", "gnext", "gsplat", "for"]
+TRAMP_BASE = 1000    # name id of trampoline class T<i>
+PH1_BASE = 2000      # name ids of phase-1 functions
+
+
+def link_family(via):
+    if via.startswith("cb:"):
+        return "native-callback"
+    return {"tr:eq": "native-equal", "tr:contains": "native-equal", "tr:splat": "user-next", "tr:for": "user-next",
+            "gnext": "generator", "gsplat": "generator", "for": "generator", "tr:interp": "interpolation",
+            "tr:add": "operator", "await": "await", "await_sync": "await"}.get(via, via)
+
+
+class VProg:
+    """script -> F1 -> ... -> FN; FN throws a value of kind `vkind` (or triggers an error created by native code);
+    every link is one of BOUNDARIES; optionally an earlier error (phase 1) is swallowed or caught first.
+    Everything is derived from (seed, depth, vkind, boundary, ph1)."""
+
+    def __init__(self, seed, depth, vkind, boundary="", ph1="none"):
+        self.spec = "v=1 seed=%d depth=%d vkind=%s boundary=%s ph1=%s" % (seed, depth, vkind, boundary, ph1)
+        r = vlib.SplitMix(seed * 1000003 + depth * 101 + sum(map(ord, vkind + "/" + boundary + "/" + ph1)) * 7919)
+        self.r, self.vkind, self.ph1, self.boundary = r, vkind, ph1, boundary
+        self.wide = {}
+        n = depth
+        kinds = [r.choice(["def", "def", "def", "inst", "mod", "async", "gen"]) for _ in range(n)]
+        forced_at = r.range(0, n - 1)
+        if boundary in ("for", "tr:for"):
+            forced_at = 0
+        if boundary in ("await",):
+            kinds[forced_at] = "async"
+        elif boundary in ("gnext", "gsplat", "for"):
+            kinds[forced_at] = "gen"
+        elif boundary:
+            if kinds[forced_at] in ("async", "gen"):
+                kinds[forced_at] = "def"
+            if boundary == "tail" and forced_at == 0:
+                forced_at = min(1, n - 1)
+                if kinds[forced_at] in ("async", "gen"):
+                    kinds[forced_at] = "def"
+        vias = []
+        for i in range(n):
+            caller = "script" if i == 0 else kinds[i - 1]
+            callee = kinds[i]
+            if callee == "async":
+                v = "await"
+            elif callee == "gen":
+                v = r.choice(["gnext", "gsplat"] + (["for"] if caller == "script" else []))
+            else:
+                opts = ["direct", "direct"] + TRAMPS
+                if caller != "gen":       # a closure inside a generator body breaks the checker (unrelated)
+                    opts += CALLBACKS + ["closure"]
+                if caller == "script":
+                    opts += ["tr:for"]
+                if caller not in ("script", "async", "gen"):
+                    opts += ["tail"]
+                v = r.choice(opts)
+            if i == forced_at and boundary:
+                ok = (boundary in ("await",) and callee == "async") or \
+                     (boundary in ("gnext", "gsplat", "for") and callee == "gen" and (boundary != "for" or caller == "script")) or \
+                     (callee not in ("async", "gen") and boundary in CALLBACKS + ["closure"] and caller != "gen") or \
+                     (callee not in ("async", "gen") and boundary in TRAMPS + ["direct"]) or \
+                     (callee not in ("async", "gen") and boundary == "tr:for" and caller == "script") or \
+                     (callee not in ("async", "gen") and boundary == "tail" and caller not in ("script", "async", "gen"))
+                if ok:
+                    v = boundary
+            if vkind in ("stop_sym", "native_stop") and v in ("gsplat", "for", "tr:splat", "tr:for"):
+                # a :stop_iteration that reaches a native iteration ends the loop, it is not an error
+                v = "gnext" if callee == "gen" else "direct"
+            vias.append(v)
+        self.kinds, self.vias = kinds, vias
+        self.layouts = []
+        self.names = {}
+        self.build()
+
+    # -- names
+    def fname(self, i):
+        k = self.kinds[i - 1]
+        return {"def": "Std::Kernel::f%d", "async": "Std::Kernel::f%d", "gen": "Std::Kernel::f%d",
+                "mod": "M%d::f%%d" % i, "inst": "K%d.:f%%d" % i}[k] % i
+
+    def call(self, j, arg):
+        k = self.kinds[j - 1]
+        if k == "mod":
+            return "M%d.f%d(%s)" % (j, j, arg)
+        if k == "inst":
+            return "K%d().f%d(%s)" % (j, j, arg)
+        return "f%d(%s)" % (j, arg)
+
+    def pad(self, out, indent):
+        r = self.r
+        for _ in range(r.choice([0, 0, 0, 1, 1, 2])):
+            out.append("" if r.chance(1, 2) else indent + "# " + r.choice(["note", "todo", "x := 1", "end"]))
+
+    def link(self, i, arg, ind, body, tramps):
+        """statements with which frame i (0 = script) reaches F(i+1), appended to body; the LAST appended expression
+        is an Int valued expression statement without its prefix (the caller adds `1 + `, `r := 1 + `...).
+        Returns (prefix statements already in body, expression lines, marks) where marks maps
+        'site' / 'outer' to (which, index): which = 'pre' (index into body as it is now) or 'expr' (line of the expression)"""
+        r = self.r
+        via = self.vias[i]
+        j = i + 1
+        c = self.call(j, "y")
+        ml = r.chance(1, 3)
+
+        def closure(ret, expr, params="y: Int"):
+            if ml:
+                return ["|%s|: %s ->" % (params, ret), "  " + expr, "end"], 1
+            return ["|%s|: %s -> %s" % (params, ret, expr)], 0
+
+        def wrap(head, clo, tail):
+            lines = [head + clo[0]] + clo[1:]
+            lines[-1] = lines[-1] + tail
+            return lines
+
+        if via == "direct":
+            return [self.call(j, arg)], {"site": 0}
+        if via == "tail":
+            return [self.call(j, arg)], {"site": 0, "tail": True}
+        if via in CALLBACKS:
+            m = via[3:]
+            if m == "map":
+                clo, k = closure("Int", "1 + " + c); lines = wrap("[%s, 2].map(" % arg, clo, ").length")
+            elif m == "filter":
+                clo, k = closure("bool", "1 + %s > 0" % c); lines = wrap("[%s, 2].filter(" % arg, clo, ").length")
+            elif m == "fold":
+                clo, k = closure("Int", "s + " + c, "s: Int, y: Int"); lines = wrap("[%s, 2].fold(0, " % arg, clo, ")")
+            elif m == "tmap":
+                clo, k = closure("Int", "1 + " + c); lines = wrap("%%[%s, 2].map(" % arg, clo, ").length")
+            elif m == "smap":
+                clo, k = closure("Int", "1 + " + c); lines = wrap("^[%s, 2].map(" % arg, clo, ").length")
+            elif m == "mapvalues":
+                clo, k = closure("Int", "1 + " + c); lines = wrap("{ 1 => %s }.map_values(" % arg, clo, ").length")
+            else:   # times: a statement of its own, the value follows
+                clo, k = closure("Int", "1 + " + c)
+                pre = wrap("2.times(", clo, ")")
+                return ["3"], {"outer_pre": 0, "site_pre": k, "pre": pre}
+            return lines, {"outer": 0, "site": k, "closure": True}
+        if via == "closure":
+            clo, k = closure("Int", "1 + " + c)
+            pre = wrap("c := ", clo, "")
+            return ["c.(%s)" % arg], {"outer": 0, "site_pre": k, "pre": pre, "closure": True}
+        if via.startswith("tr:"):
+            t = via[3:]
+            T = "T%d" % j
+            inner = self.call(j, "@v")
+            if t == "interp":
+                tramps.append((j, "inspect", "def inspect: String", "(1 + %s).to_string" % inner, ""))
+                return ['"a#{%s(%s)}b".length' % (T, arg)], {"outer": 0, "tramp": "inspect"}
+            if t == "eq":
+                tramps.append((j, "==", "def ==(other: any): bool", "1 + %s > 0" % inner, ""))
+                return ["(if [%s(%s)] == [%s(%s)] then 1 else 2)" % (T, arg, T, arg)], {"outer": 0, "tramp": "=="}
+            if t == "contains":
+                tramps.append((j, "==", "def ==(other: any): bool", "1 + %s > 0" % inner, ""))
+                return ["(if [%s(%s)].contains(%s(%s)) then 1 else 2)" % (T, arg, T, arg)], {"outer": 0, "tramp": "=="}
+            if t == "splat":
+                tramps.append((j, "next", "def next: Int ! :stop_iteration", "1 + %s" % inner, "  include Iterator::Base[Int]"))
+                return ["[0, *%s(%s)].length" % (T, arg)], {"outer": 0, "tramp": "next"}
+            if t == "add":
+                tramps.append((j, "+", "def +(o: Int): Int", "1 + %s" % inner, ""))
+                return ["(%s(%s) + 1)" % (T, arg)], {"outer": 0, "tramp": "+"}
+            if t == "for":
+                tramps.append((j, "next", "def next: Int ! :stop_iteration", "1 + %s" % inner, "  include Iterator::Base[Int]"))
+                return ["q"], {"outer_pre": 1, "pre": ["q := 0", "for v in %s(%s)" % (T, arg), "  q += v", "end"], "tramp": "next"}
+        if via == "await":
+            kw = "await" if (i > 0 and self.kinds[i - 1] == "async") else "await_sync"
+            return ["(%s %s)" % (kw, self.call(j, arg))], {"site": 0, "await": True}
+        if via == "gnext":
+            return ["(try %s.next)" % self.call(j, arg)], {"site": 0}
+        if via == "gsplat":
+            return ["[0, *%s].length" % self.call(j, arg)], {"site": 0}
+        if via == "for":
+            return ["q"], {"site_pre": 1, "pre": ["q := 0", "for v in %s" % self.call(j, arg), "  q += v", "end"]}
+        raise ValueError(via)
+
+    def emit_frame(self, i, ind, prefix, arg, tramps):
+        """body lines of frame i (without header) and the marks {what: line index in body}"""
+        r = self.r
+        body, marks = [], {}
+        self.pad(body, ind)
+        expr, mk = self.link(i, arg, ind, body, tramps)
+        if "pre" in mk:
+            base = len(body)
+            for l in mk["pre"]:
+                body.append(ind + l)
+            for w in ("outer_pre", "site_pre"):
+                if w in mk:
+                    marks[w[:-4]] = base + mk[w]
+            self.pad(body, ind)
+        if mk.get("tail"):
+            base = len(body)
+            body.append(ind + expr[0])
+        else:
+            plus = r.chance(1, 3)
+            if plus:
+                body.append(ind + prefix + "1 +")
+                base = len(body)
+                for l in expr:
+                    body.append(ind + "  " + l)
+            else:
+                base = len(body)
+                body.append(ind + prefix + "1 + " + expr[0])
+                for l in expr[1:]:
+                    body.append(ind + l)
+            self.layouts.append("plus" if plus else "one")
+        for w in ("outer", "site"):
+            if w in mk and w not in marks:
+                marks[w] = base + mk[w]
+        self.layouts.append(self.vias[i] + ("/ml" if len(expr) > 1 or len(mk.get("pre", [])) > 1 else ""))
+        return body, marks, mk
+
+    def thrower(self, ind):
+        r = self.r
+        body = []
+        self.pad(body, ind)
+        if r.chance(1, 2):
+            body.append(ind + "w := x + %d" % r.range(1, 9))
+            self.pad(body, ind)
+        lit = VK[self.vkind][1]
+        if lit is not None:
+            site = len(body)
+            body.append(ind + "throw unchecked " + lit)
+        elif self.vkind == "native_stop":
+            body.append(ind + "it := [x].iter")
+            body.append(ind + "p := try it.next")
+            self.pad(body, ind)
+            site = len(body)
+            body.append(ind + "q := try it.next")
+            body.append(ind + "p + q")
+        else:
+            site = len(body)
+            body.append(ind + "1 + x / (x - x)")
+        return body, site
+
+    def phase1(self):
+        """(definition lines, script lines, model episodes)"""
+        lit = VK[self.vkind][1]
+        if lit is None:
+            lit1 = ":stop_iteration" if self.vkind == "native_stop" else 'E1("y")'
+        else:
+            lit1 = lit
+        v = self.vcode(lit1 == ":stop_iteration" and "stop" or self.vkind)
+        stop = "i5"
+        gen = ["def *pg(x: Int): Int", "  yield 1", "  3", "end"]
+        it = ["class PI", "  include Iterator::Base[Int]", "  var @c: Int", "  init", "    @c = 0", "  end",
+              "  def next: Int ! :stop_iteration", "    throw :stop_iteration if @c >= 2", "    @c++", "  end", "end"]
+        p = self.ph1
+        A, B = PH1_BASE, PH1_BASE + 1
+        if p == "for_gen":
+            return gen, ["s0 := 0", "for v0 in pg(1)", "  s0 += v0", "end"], [("S", stop, "D", [[(A, 2, 0), (B, 3, 0)]])]
+        if p == "for_iter":
+            return it, ["s0 := 0", "for v0 in PI()", "  s0 += v0", "end"], [("S", stop, "D", [[(A, 2, 0), (B, 8, 0)]])]
+        if p == "splat_gen":
+            return gen, ["l0 := [0, *pg(1)]"], [("S", stop, "D", [[(A, 1, 0), (B, 3, 0)]])]
+        if p == "splat_iter":
+            return it, ["l0 := [0, *PI()]"], [("S", stop, "D", [[(A, 1, 0), (B, 8, 0)]])]
+        if p == "next_catch":
+            return gen, ["g0 := pg(1)", "do", "  g0.next", "  g0.next", "  g0.next", "catch e0", "  println(\"c\")", "end"], \
+                [("C", stop, "D", [[(A, 5, 0), (B, 3, 0)], [(A, 5, 0)]])]
+        if p == "catch_cb":
+            return ["def pt(x: Int): Int", "  throw unchecked " + lit1, "end"], \
+                ["do", "  [1, 2].map |y: Int|: Int -> 1 + pt(y)", "catch e0", "  println(\"c\")", "end"], \
+                [("C", v, "D", [[(A, 2, 0), (CLOSURE_ID, 2, 0), (B, 2, 0)], [(A, 2, 0)]])]
+        if p == "catch_await":
+            return ["async def pa(x: Int): Int", "  throw unchecked " + lit1, "end"], \
+                ["do", "  await_sync pa(1)", "catch e0", "  println(\"c\")", "end"], []
+        if p == "catch_gen_for":
+            return ["def *pq(x: Int): Int", "  yield 1", "  throw unchecked " + lit1, "end"], \
+                ["s0 := 0", "do", "  for v0 in pq(1)", "    s0 += v0", "  end", "catch e0", "  println(\"c\")", "end"], \
+                [("C", v, "D", [[(A, 3, 0), (B, 3, 0)], [(A, 3, 0)]])]
+        return [], [], []
+
+    def vcode(self, kind):
+        if kind == "stop":
+            return "i5"
+        idx = [k[0] for k in VKINDS].index(kind)
+        return ("r%d" if VK[kind][2] == "reference" else "i%d") % (100 + idx)
+
+    def build(self):
+        r = self.r
+        n = len(self.kinds)
+        tramps = []
+        bodies, marks, mks = {}, {}, {}
+        for i in range(1, n):
+            k = self.kinds[i - 1]
+            ind = "  "
+            # a generator reaches the next function at its FIRST resumption (`.next` resumes it once)
+            b, m, mk = self.emit_frame(i, ind, "yield " if k == "gen" else "", "x", tramps)
+            bodies[i] = b + ([ind + "3"] if k == "gen" else [])
+            marks[i] = m
+            mks[i] = mk
+        tb, tsite = self.thrower("  ")
+        bodies[n] = tb + (["  yield 2", "  3"] if self.kinds[n - 1] == "gen" and VK[self.vkind][1] is not None else [])
+        marks[n] = {"site": tsite}
+        # script frame
+        sb, sm, smk = self.emit_frame(0, "", "r := ", str(r.range(1, 9)), tramps)
+        mks[0] = smk
+        d1, s1, self.episodes = self.phase1()
+        # assemble: definitions in random order
+        units = []
+        for i in range(1, n + 1):
+            k = self.kinds[i - 1]
+            head = {"def": "def f%d(x: Int): Int", "async": "async def f%d(x: Int): Int", "gen": "def *f%d(x: Int): Int",
+                    "mod": "def f%d(x: Int): Int", "inst": "def f%d(x: Int): Int"}[k] % i
+            wrapl = {"mod": "module M%d" % i, "inst": "class K%d" % i}.get(k)
+            units.append(("f", i, wrapl, head, bodies[i]))
+        for (j, mname, head, expr, incl) in tramps:
+            units.append(("t", j, "class T%d" % j, head, expr, incl, mname))
+        if d1:
+            units.append(("p", d1))
+        r.shuffle(units)
+        out = ["class E1 < Error; end"]
+        defline, trampline = {}, {}
+        for u in units:
+            self.pad(out, "")
+            if u[0] == "p":
+                out += u[1]
+            elif u[0] == "f":
+                _, i, wrapl, head, body = u
+                ind = "  " if wrapl else ""
+                if wrapl:
+                    out.append(wrapl)
+                out.append(ind + head)
+                defline[i] = len(out)
+                for l in body:
+                    out.append((ind + l) if l else l)
+                out.append(ind + "end")
+                if wrapl:
+                    out.append("end")
+            else:
+                _, j, cls, head, expr, incl, mname = u
+                out.append(cls)
+                if incl:
+                    out.append(incl)
+                out += ["  var @v: Int", "  init(v: Int)", "    @v = v", "  end"]
+                self.pad(out, "  ")
+                out.append("  " + head)
+                self.pad(out, "    ")
+                trampline[j] = len(out) + 1
+                out.append("    " + expr)
+                out += ["  end", "end"]
+                self.names["T%d.:%s" % (j, mname)] = TRAMP_BASE + j
+        self.pad(out, "")
+        out += s1
+        self.pad(out, "")
+        base0 = len(out)
+        out += sb
+        out.append("println(r.inspect)")
+        self.lines = out
+        for i in range(1, n + 1):
+            self.names[self.fname(i)] = i
+
+        def line_of(i, what):
+            if i == 0:
+                return base0 + sm[what] + 1
+            return defline[i] + marks[i][what] + 1
+
+        threads, cuts = [[]], [[]]
+        tcc = 0
+        name = SCRIPT_ID
+        for i in range(0, n):
+            via = self.vias[i]
+            mk = mks[i]
+            cur = threads[-1]
+            if via == "tail":
+                tcc += 1
+            elif mk.get("closure") or via == "cb:times":
+                cur.append((name, line_of(i, "outer"), tcc))
+                if via in NESTED:
+                    cuts[-1].append(len(cur) - 1)
+                cur.append((CLOSURE_ID, line_of(i, "site"), 0)); tcc = 0
+            elif "tramp" in mk:
+                cur.append((name, line_of(i, "outer"), tcc))
+                if via in NESTED:
+                    cuts[-1].append(len(cur) - 1)
+                cur.append((TRAMP_BASE + i + 1, trampline[i + 1], 0)); tcc = 0
+            else:
+                cur.append((name, line_of(i, "site"), tcc)); tcc = 0
+                if via in NESTED:
+                    cuts[-1].append(len(cur) - 1)
+                if mk.get("await"):
+                    threads.append([]); cuts.append([])
+            name = i + 1
+        threads[-1].append((name, line_of(n, "site"), tcc))
+        self.threads, self.cuts = threads, cuts
+        self.expected = [e for t in threads for e in t]
+
+    def source(self):
+        return "\n".join(self.lines) + "\n"
+
+    def scenario(self):
+        """hist scenario for the extracted model: earlier episodes, then the final error with the snapshot of every
+        instruction it is handed back to, then the awaiting threads"""
+        r = vlib.SplitMix(self.r.next())
+
+        def frame_txt(name, line, tcc):
+            ops, off = [], 0
+            for _ in range(r.range(0, 3)):
+                b = r.range(1, 4); ops.append("a%d:%d" % (max(1, line + r.range(-6, 6)), b)); off += b
+            b = r.range(1, 3); ops.append("a%d:%d" % (line, b)); off += b
+            if r.chance(1, 2):
+                e = r.range(1, 4); ops.append("b%d" % e); off += e
+            ip = off
+            for _ in range(r.range(0, 2)):
+                ops.append("a%d:%d" % (line + r.range(1, 5), r.range(1, 4)))
+            return "%d,%d,%d,%d,%s" % (name, FILE_ID, ip, tcc, ".".join(ops))
+
+        def snap(ftxt, k):
+            return ";".join(["E"] + ["B," + f for f in ftxt[:k]] + ["C," + ftxt[k]])
+
+        def origin(entries, cuts):
+            ftxt = [frame_txt(*e) for e in entries]
+            snaps = [snap(ftxt, len(ftxt) - 1)] + [snap(ftxt, k) for k in reversed(cuts)]
+            return "^".join(snaps)
+
+        eps = []
+        for (en, v, k, ths) in self.episodes:
+            full = ths[0]
+            cut = [len(t) - 1 for t in ths[1:]]
+            eps.append("%s~%s~%s~%s" % (en, v, k, origin(full, cut)))
+        lit = VK[self.vkind][1]
+        vc = "i5" if self.vkind in ("native_stop", "stop_sym") else self.vcode(self.vkind)
+        eps.append("T~%s~%s~%s" % (vc, "D" if lit is not None else "N", origin(self.threads[-1], self.cuts[-1])))
+        txt = "hist 10 " + " # ".join(eps)
+        aw = []
+        for t in reversed(self.threads[:-1]):
+            ftxt = [frame_txt(*e) for e in t]
+            aw.append(snap(ftxt, len(ftxt) - 1))
+        if aw:
+            txt += " @ " + "|".join(aw)
+        return txt
+
+
 TRACE_RE = re.compile(r"^\s*(\d+): (.*):(-?\d+), in `(.*)`$")
 TAIL_RE = re.compile(r"^\s*\.\.\. (\d+) optimised tail call")
 
@@ -501,6 +954,8 @@ def name_id(p, s, fname):
         return CLOSURE_ID
     if os.path.basename(s) == fname:
         return SCRIPT_ID
+    if isinstance(p, VProg):
+        return p.names.get(s, -1)
     for i in range(1, len(p.kinds) + 1):
         if p.fname(i) == s:
             return i
@@ -534,6 +989,51 @@ def classify(p, exp, obs):
     return "chain-differs:%s" % ("longer" if len(obs) > len(exp) else "shorter")
 
 
+def vclassify(p, exp, obs):
+    """canonical class of a mismatch of a third-generation program: what happened x boundary family x value class"""
+    cls = VK[p.vkind][2] if VK[p.vkind][1] is not None else "native-" + VK[p.vkind][2]
+    if p.ph1 != "none" and any(e[0] == -1 for e in obs):
+        return "stale-trace:%s:%s" % (p.ph1, cls)
+    if len(obs) < len(exp) and obs == exp[:len(obs)]:
+        count = 0
+        for i, via in enumerate(p.vias):
+            count += 0 if via == "tail" else (2 if (via.startswith("cb:") or via.startswith("tr:") or via == "closure") else 1)
+            if count >= len(obs):
+                return "truncated-at:%s:%s" % (link_family(via), cls)
+        return "truncated-at:throw:%s" % cls
+    if len(obs) == len(exp):
+        for a, b in zip(exp, obs):
+            if a != b:
+                what = "line" if (a[0], a[2]) == (b[0], b[2]) else ("tailcalls" if (a[0], a[1]) == (b[0], b[1]) else "frame")
+                return "wrong-%s:%s" % (what, cls)
+    return "chain-differs:%s:%s" % ("longer" if len(obs) > len(exp) else "shorter", cls)
+
+
+def value_programs(ctx, stream):
+    """third generation (own random streams): thrown value kind x boundary kind, and two-phase programs"""
+    progs = []
+    vr = ctx.rng(stream + ".values")
+    names = [k[0] for k in VKINDS]
+    per_b = ctx.n(5, 60)
+    for b in BOUNDARIES:
+        ks = list(names)
+        vr.shuffle(ks)
+        inl = [k for k in ks if VK[k][2] == "inline"]
+        for k in ks[:per_b - 2] + inl[-2:]:
+            progs.append(VProg(vr.below(1 << 40), vr.range(1, 5), k, b))
+    for k in names:
+        for _ in range(ctx.n(2, 40)):
+            progs.append(VProg(vr.below(1 << 40), vr.range(1, 6), k, vr.choice(["", ""] + BOUNDARIES)))
+    hr = ctx.rng(stream + ".history")
+    for ph in PHASE1:
+        ks = list(names)
+        hr.shuffle(ks)
+        for k in ["native_stop", "stop_sym", "symbol", "string"] + ks[:ctx.n(3, 40)]:
+            for _ in range(ctx.n(1, 6)):
+                progs.append(VProg(hr.below(1 << 40), hr.range(1, 4), k, hr.choice(["", ""] + BOUNDARIES), ph))
+    return progs
+
+
 def prog_stream(ctx, elk, model):
     stream = "c32.prog"
     rng = ctx.rng(stream)
@@ -544,7 +1044,10 @@ def prog_stream(ctx, elk, model):
             l = l.strip()
             if l and not l.startswith("#"):
                 kv = dict(x.split("=", 1) for x in l.split())
-                progs.append(Prog(int(kv["seed"]), int(kv["depth"]), kv.get("force", "")))
+                if "v" in kv:
+                    progs.append(VProg(int(kv["seed"]), int(kv["depth"]), kv["vkind"], kv.get("boundary", ""), kv.get("ph1", "none")))
+                else:
+                    progs.append(Prog(int(kv["seed"]), int(kv["depth"]), kv.get("force", "")))
     ncorpus = len(progs)
     n = ctx.n(290, 10000)
     forces = ["", "", "", "map", "for", "await", "tail", "closure_ml", "closure_tail"]
@@ -555,6 +1058,9 @@ def prog_stream(ctx, elk, model):
     wrng = ctx.rng(stream + ".wide")
     for k in range(ctx.n(44, 1500)):
         progs.append(Prog(wrng.below(1 << 40), wrng.range(1, 6), wrng.choice(["wide", "wide", "wide", "wide16"])))
+    # third generation: the thrown value kind and the boundary kind are generator dimensions; two-phase programs
+    vprogs = value_programs(ctx, stream)
+    progs += vprogs
     ids = ["p%d" % k for k in range(len(progs))]
     # model expectation
     inputs = {i: p.scenario() for i, p in zip(ids, progs)}
@@ -574,13 +1080,22 @@ def prog_stream(ctx, elk, model):
                       "model=%s generator=%s" % (m, fmt(exp)))
             continue
         rc_, out, cls = results[i]
+        isv = isinstance(p, VProg)
         for v in set(p.vias):
             dist[v] = dist.get(v, 0) + 1
         dist["depth%d" % len(p.kinds)] = dist.get("depth%d" % len(p.kinds), 0) + 1
         if p.wide:
             dist["wide-prologue"] = dist.get("wide-prologue", 0) + 1
+        if isv:
+            for k in ("value=" + p.vkind, "history=" + p.ph1):
+                dist[k] = dist.get(k, 0) + 1
+            for v in set(p.vias):
+                if v in NESTED:
+                    k = "crossing:%s:%s" % (link_family(v), VK[p.vkind][2] if VK[p.vkind][1] is not None else "native-" + VK[p.vkind][2])
+                    dist[k] = dist.get(k, 0) + 1
         tr = parse_trace(out, fname)
-        if cls in ("go_panic", "go_fatal", "timeout", "signal") or tr is None or 'Uncaught thrown value: "boom"' not in out:
+        if cls in ("go_panic", "go_fatal", "timeout", "signal") or tr is None or \
+                (('Uncaught thrown value: "boom"' not in out) if not isv else ("Error! Uncaught" not in out)):
             crashed += 1
             dist["unusable:" + cls] = dist.get("unusable:" + cls, 0) + 1
             if crashed <= 3:
@@ -589,12 +1104,12 @@ def prog_stream(ctx, elk, model):
         usable += 1
         obs = [(name_id(p, s, fname), ln, tc) for (s, ln, tc, f) in tr]
         badfile = [f for (_, _, _, f) in tr if f != fname]
-        distinct.add((tuple(p.kinds), tuple(p.vias), tuple(p.layouts)))
+        distinct.add((tuple(p.kinds), tuple(p.vias), tuple(p.layouts)) + ((p.vkind, p.ph1) if isv else ()))
         if len(samples) < 4:
             samples.append({"spec": p.spec, "expected": fmt(exp), "observed": fmt(obs)})
         if obs != exp or badfile:
             mism += 1
-            key = "prog:" + ("wrong-file" if badfile and obs == exp else classify(p, exp, obs))
+            key = "prog:" + ("wrong-file" if badfile and obs == exp else (vclassify(p, exp, obs) if isv else classify(p, exp, obs)))
             ctx.fail(key, "%s (kinds=%s vias=%s): printed chain [%s], active chain [%s]" % (
                 p.spec, ",".join(p.kinds), ",".join(p.vias), fmt(obs), fmt(exp)),
                 stream=stream, case={"spec": p.spec, "source": p.source()}, impl=fmt(obs), model=m,
